@@ -2,7 +2,7 @@
    five ranks and the "all one suit" bit. *)
 From Coq Require Import Sorting.Permutation.
 From CKC Require Import Base.Prelude Base.Reflect Base.SortN Spec.Layout Spec.Poker.
-From CKC Require Import Model.Card Model.Hands Model.Five Proofs.CardFacts Proofs.BitFacts.
+From CKC Require Import Model.Card Model.Hands Model.Five Proofs.CardBase Proofs.BitFacts.
 From CKC Require Import Gen.Consts Gen.Tables.
 Open Scope N_scope.
 
